@@ -380,7 +380,7 @@ def _run_config(frontend, prefix, principal, flagseq, storage="tree"):
                                     http(srv.port, "PUT", urllib.parse.urljoin(c3, "t.ics"), [("Content-Type", "text/calendar")],
                                          gamma.ics_event("third-1@example.com", "in the plain collection"))
                                 for target, text in ((c2, "Second calendar\n\nshared with the team; 100% [draft] #1 = a:b"),
-                                                     (cal, "Main\n\ncalendar")):
+                                                     (cal, "Priv\u00e9 \u2603\n\ncalendar")):
                                     http(srv.port, "PROPPATCH", target, [("Content-Type", "text/xml")],
                                          gamma.proppatch_body([("caldesc", text), ("comment", text), ("displayname", text.split("\n")[0])]))
                 if srv.up:
